@@ -81,8 +81,7 @@ def run(chk):
     lines = []
     for name, spec in REGRESSION:
         specs[spec] = 'regression:' + name
-    for _ in range(nh):
-        spec, kind = F.gen_history(rng, corpus)
+    for spec, kind in F.gen_histories(rng, h, corpus, nh):
         specs.setdefault(spec, kind)
     for spec in specs:
         lines.append('hist\t' + spec)
